@@ -21,8 +21,8 @@ for mp in sorted(glob.glob(os.path.join(ROOT, "seeded", "C*", "meta.json"))):
 n = len(rows)
 caught = sum(1 for r in rows if "caught: " in r.split("|")[3])
 text = [
-    f"{n} changes produced by independent sub-agents in three rounds (each was given only the property text and its",
-    "own scratch worktree; in the third round (suffixes E/F, and D/E for C14, C15, C19) also a one-line summary of",
+    f"{n} changes produced by independent sub-agents in four rounds (each was given only the property text and its",
+    "own scratch worktree; in the third and fourth round (suffixes E/F, D/E and G for C14, C15, C19) also a one-line summary of",
     "the changes already seeded for that property, so as not to repeat them; none saw /verif or was told what the",
     "checks detect), each confirmed by `tools/confirm_mutant.sh` in a scratch worktree: it applies,",
     "the existing 103-test suite still passes, its demonstration fails with it and passes without it. Every",
